@@ -1,0 +1,30 @@
+//go:build verif
+
+package rollout
+
+import (
+	"k8s.io/apimachinery/pkg/runtime"
+	"sigs.k8s.io/controller-runtime/pkg/client"
+	"sigs.k8s.io/controller-runtime/pkg/handler"
+)
+
+// VerifWorkloadEventHandler returns the handler the Rollout controller registers for workload events
+// (verification harness only; compiled with -tags verif).
+func VerifWorkloadEventHandler(r client.Reader, scheme *runtime.Scheme) handler.EventHandler {
+	return &enqueueRequestForWorkload{reader: r, scheme: scheme}
+}
+
+// VerifBatchReleaseEventHandler returns the handler the Rollout controller registers for BatchRelease events.
+func VerifBatchReleaseEventHandler(r client.Reader) handler.EventHandler {
+	return &enqueueRequestForBatchRelease{reader: r}
+}
+
+// VerifHandleTrafficRouting / VerifFinalizeTrafficRouting expose how the Rollout controller puts its
+// progressing finalizer on a TrafficRouting object and takes it off again.
+func (r *RolloutReconciler) VerifHandleTrafficRouting(namespace, name, tr string) (bool, error) {
+	return r.handleTrafficRouting(namespace, name, tr)
+}
+
+func (r *RolloutReconciler) VerifFinalizeTrafficRouting(namespace, name, tr string) error {
+	return r.finalizeTrafficRouting(namespace, name, tr)
+}
